@@ -1466,6 +1466,20 @@ static int op_srvstate(int argc, char **argv, FILE *out) {
     return 1;
 }
 
+/* srvnext <srvname> <n>: the identifier cursor of the server stands at <n> (0..256), as after that many requests went out */
+static int op_srvnext(int argc, char **argv, FILE *out) {
+    struct server *s;
+    int n;
+    if (argc != 2 || !world_ready || !(s = srv_by_name(argv[0])) || (n = atoi(argv[1])) < 0 || n > MAX_REQUESTS)
+        return 0;
+    pthread_mutex_lock(&s->newrq_mutex);
+    s->nextid = n;
+    pthread_mutex_unlock(&s->newrq_mutex);
+    fputs("ok", out);
+    put_tail(out);
+    return 1;
+}
+
 /* idle: nothing happens; prints the state (used after all clients are gone and all timers have run) */
 static int op_idle(int argc, char **argv, FILE *out) {
     (void)argv;
@@ -1745,6 +1759,7 @@ int h_rsp_op(const char *op, int argc, char **argv, FILE *out) {
     if (!strcmp(op, "dynroute")) return op_dynroute(argc, argv, out);
     if (!strcmp(op, "rmserver")) return op_rmserver(argc, argv, out);
     if (!strcmp(op, "srvstate")) return op_srvstate(argc, argv, out);
+    if (!strcmp(op, "srvnext")) return op_srvnext(argc, argv, out);
     if (!strcmp(op, "pop")) return op_pop(argc, argv, out);
     if (!strcmp(op, "rmclient")) return op_rmclient(argc, argv, out);
     if (!strcmp(op, "wrstart")) return op_wrstart(argc, argv, out);
